@@ -140,6 +140,7 @@ type h2World struct {
 	plannedCid int
 	relayOf  map[string]string
 	onCid    func(idx int, key string, bound bool)
+	relayMu   sync.Mutex   // guards relayOf
 	permDelay atomic.Int64 // nanoseconds every PermissionHandler call takes
 	authDelay atomic.Int64 // nanoseconds the AuthHandler takes for user bob
 }
@@ -259,10 +260,18 @@ func newH2WorldWith(vt *vhT, cfg ServerConfig, lis []*h2Listener, withAuth bool,
 	}
 	rec := EventHandler{
 		OnAllocationCreated: func(s, d net.Addr, p, u, r string, relay net.Addr, port int) {
+			// two stream clients are served by two goroutines: their callbacks may run at the same time
+			w.relayMu.Lock()
 			w.relayOf[key(s, d)] = canonAddr(relay)
+			w.relayMu.Unlock()
 			w.ev.add("alloc+ %s %s", key(s, d), canonAddr(relay))
 		},
-		OnAllocationDeleted: func(s, d net.Addr, p, u, r string) { w.ev.add("alloc- %s %s", key(s, d), w.relayOf[key(s, d)]) },
+		OnAllocationDeleted: func(s, d net.Addr, p, u, r string) {
+			w.relayMu.Lock()
+			relay := w.relayOf[key(s, d)]
+			w.relayMu.Unlock()
+			w.ev.add("alloc- %s %s", key(s, d), relay)
+		},
 		OnPermissionCreated: func(s, d net.Addr, p, u, r string, relay net.Addr, peer net.IP) {
 			w.ev.add("perm+ %s %s", key(s, d), canonIPStr(peer))
 		},
